@@ -43,12 +43,14 @@ orc_target_get_by_name (const char *name)
 OrcTarget *
 orc_target_get_default (void)
 {
-  const char *const envvar = _orc_getenv ("ORC_BACKEND");
+  char *const envvar = _orc_getenv ("ORC_TARGET");
 
   if (envvar != NULL) {
     OrcTarget *const target = orc_target_get_by_name (envvar);
 
-    if (target != NULL)
+    free (envvar);
+    /* only a back end that can run here may replace the default */
+    if (target != NULL && target->executable)
       return target;
   }
 
